@@ -673,6 +673,84 @@ func c08Verify(ns []string, root common.Hash, key []byte) string {
 	return hex.EncodeToString(val)
 }
 
+// c08Derived is the derived part of an op line: the proof record decoded with the driven package's own type and the
+// trie.VerifyProof results of each step, computed with that step's own node list (same library calls as the node)
+func c08Derived(client string, proof []byte, consRoot []byte, haveCons bool) string {
+	var sb strings.Builder
+	var mpt []string
+	if proof == nil {
+		sb.WriteString("nil")
+	} else {
+		// both packages' Proof types are generated from identical messages; decode with the driven package's type
+		var address, balance, codeHash, nonce, storageHash string
+		var acctProof []string
+		type sp struct {
+			null       bool
+			key, value string
+			proof      []string
+		}
+		var sps []sp
+		var jerr error
+		if client == "eth" {
+			var p ethtypes.Proof
+			jerr = json.Unmarshal(proof, &p)
+			address, balance, codeHash, nonce, storageHash, acctProof = p.Address, p.Balance, p.CodeHash, p.Nonce, p.StorageHash, p.AccountProof
+			for _, s := range p.StorageProof {
+				if s == nil {
+					sps = append(sps, sp{null: true})
+				} else {
+					sps = append(sps, sp{key: s.Key, value: s.Value, proof: s.Proof})
+				}
+			}
+		} else {
+			var p bsctypes.Proof
+			jerr = json.Unmarshal(proof, &p)
+			address, balance, codeHash, nonce, storageHash, acctProof = p.Address, p.Balance, p.CodeHash, p.Nonce, p.StorageHash, p.AccountProof
+			for _, s := range p.StorageProof {
+				if s == nil {
+					sps = append(sps, sp{null: true})
+				} else {
+					sps = append(sps, sp{key: s.Key, value: s.Value, proof: s.Proof})
+				}
+			}
+		}
+		if jerr != nil {
+			sb.WriteString("bad")
+		} else {
+			fmt.Fprintf(&sb, "ok %s %s %s %s %s %d", c08Str(address), c08Str(balance), c08Str(codeHash), c08Str(nonce), c08Str(storageHash), len(acctProof))
+			for _, n := range acctProof {
+				sb.WriteString(" " + c08Str(n))
+			}
+			fmt.Fprintf(&sb, " %d", len(sps))
+			for _, s := range sps {
+				if s.null {
+					sb.WriteString(" null")
+					continue
+				}
+				fmt.Fprintf(&sb, " sp %s %s %d", c08Str(s.key), c08Str(s.value), len(s.proof))
+				for _, n := range s.proof {
+					sb.WriteString(" " + c08Str(n))
+				}
+			}
+			if haveCons {
+				root := common.BytesToHash(consRoot)
+				key := crypto.Keccak256(common.FromHex(address))
+				mpt = append(mpt, hx(root.Bytes())+" "+hx(key)+" "+c08Verify(acctProof, root, key))
+			}
+			if len(sps) >= 1 && !sps[0].null {
+				root := common.HexToHash(storageHash)
+				key := crypto.Keccak256(common.HexToHash(sps[0].key).Bytes())
+				mpt = append(mpt, hx(root.Bytes())+" "+hx(key)+" "+c08Verify(sps[0].proof, root, key))
+			}
+		}
+	}
+	fmt.Fprintf(&sb, " M %d", len(mpt))
+	for _, m := range mpt {
+		sb.WriteString(" " + m)
+	}
+	return sb.String()
+}
+
 // apply runs the real code on the case and returns the full op line (core + derived part) and the observation
 func c08Apply(t *testing.T, r *Rec, c *c08Case) (string, string) {
 	store := dbadapter.Store{DB: dbm.NewMemDB()}
@@ -743,77 +821,7 @@ func c08Apply(t *testing.T, r *Rec, c *c08Case) (string, string) {
 	var sb strings.Builder
 	sb.WriteString(c.core())
 	sb.WriteString(" | ")
-	var mpt []string
-	if proof == nil {
-		sb.WriteString("nil")
-	} else {
-		// both packages' Proof types are generated from identical messages; decode with the driven package's type
-		var address, balance, codeHash, nonce, storageHash string
-		var acctProof []string
-		type sp struct {
-			null       bool
-			key, value string
-			proof      []string
-		}
-		var sps []sp
-		var jerr error
-		if c.client == "eth" {
-			var p ethtypes.Proof
-			jerr = json.Unmarshal(proof, &p)
-			address, balance, codeHash, nonce, storageHash, acctProof = p.Address, p.Balance, p.CodeHash, p.Nonce, p.StorageHash, p.AccountProof
-			for _, s := range p.StorageProof {
-				if s == nil {
-					sps = append(sps, sp{null: true})
-				} else {
-					sps = append(sps, sp{key: s.Key, value: s.Value, proof: s.Proof})
-				}
-			}
-		} else {
-			var p bsctypes.Proof
-			jerr = json.Unmarshal(proof, &p)
-			address, balance, codeHash, nonce, storageHash, acctProof = p.Address, p.Balance, p.CodeHash, p.Nonce, p.StorageHash, p.AccountProof
-			for _, s := range p.StorageProof {
-				if s == nil {
-					sps = append(sps, sp{null: true})
-				} else {
-					sps = append(sps, sp{key: s.Key, value: s.Value, proof: s.Proof})
-				}
-			}
-		}
-		if jerr != nil {
-			sb.WriteString("bad")
-		} else {
-			fmt.Fprintf(&sb, "ok %s %s %s %s %s %d", c08Str(address), c08Str(balance), c08Str(codeHash), c08Str(nonce), c08Str(storageHash), len(acctProof))
-			for _, n := range acctProof {
-				sb.WriteString(" " + c08Str(n))
-			}
-			fmt.Fprintf(&sb, " %d", len(sps))
-			for _, s := range sps {
-				if s.null {
-					sb.WriteString(" null")
-					continue
-				}
-				fmt.Fprintf(&sb, " sp %s %s %d", c08Str(s.key), c08Str(s.value), len(s.proof))
-				for _, n := range s.proof {
-					sb.WriteString(" " + c08Str(n))
-				}
-			}
-			if haveCons {
-				root := common.BytesToHash(consRoot)
-				key := crypto.Keccak256(common.FromHex(address))
-				mpt = append(mpt, hx(root.Bytes())+" "+hx(key)+" "+c08Verify(acctProof, root, key))
-			}
-			if len(sps) >= 1 && !sps[0].null {
-				root := common.HexToHash(storageHash)
-				key := crypto.Keccak256(common.HexToHash(sps[0].key).Bytes())
-				mpt = append(mpt, hx(root.Bytes())+" "+hx(key)+" "+c08Verify(sps[0].proof, root, key))
-			}
-		}
-	}
-	fmt.Fprintf(&sb, " M %d", len(mpt))
-	for _, m := range mpt {
-		sb.WriteString(" " + m)
-	}
+	sb.WriteString(c08Derived(c.client, proof, consRoot, haveCons))
 	line := sb.String()
 
 	// ---- oracle 2 (needs no ground truth, also evaluated on replays): accepted ⇒ the account proof ALONE proves an
@@ -2143,6 +2151,16 @@ func c08Replay(t *testing.T, r *Rec, lines []string) {
 			}
 			continue
 		}
+		if f[0] == "lc" {
+			if c08TheLife == nil {
+				c08TheLife = newC08Life()
+			}
+			if f[1] != "create" && !c08TheLife.created {
+				t.Fatalf("life-cycle replay must start with `lc create`")
+			}
+			r.Op(c08TheLife.replay(r, nil, l))
+			continue
+		}
 		if f[0] != "v" {
 			r.Op(l, c08DirectEval(r, l))
 			continue
@@ -2153,6 +2171,8 @@ func c08Replay(t *testing.T, r *Rec, lines []string) {
 		r.Nontrivial(hex.EncodeToString(crypto.Keccak256([]byte(line))))
 	}
 }
+
+var c08TheLife *c08Life
 
 func TestC08(t *testing.T) {
 	r := NewRec(t, "C08")
@@ -2175,6 +2195,14 @@ func TestC08(t *testing.T) {
 	for i := 0; i < cases; i++ {
 		if i%40 == 0 {
 			w = c08NewWorld(r)
+			// one life-cycle history per world: create → real header updates / upgrade / toggle → verify at every depth
+			if c08TheLife == nil {
+				c08TheLife = newC08Life()
+			}
+			c08LifeHistory(r, c08TheLife, w, func(op, out string) {
+				r.Op(op, out)
+				r.Nontrivial(hex.EncodeToString(crypto.Keccak256([]byte(op))))
+			})
 		}
 		c := c08Gen(r, w)
 		line, out := c08Apply(t, r, c)
